@@ -13,8 +13,10 @@ RULE = ("a constructor call Namer(entries=[...]) (empty, consistent, with repeat
         "op was rejected (NamerError) or reported no change and at least one succeeded")
 MODELLED = ["Python dict (as association list with unique keys)", "str equality of names/addresses (as N equality)"]
 
-NAMES = [None, "alpha", "beta", "gamma", "delta", ["n", 1]]
-ADDRS = [None, "/tmp/a", "/tmp/b", "10.0.0.1:5", "x", ["127.0.0.1", 5000]]
+# the two value domains overlap on purpose ("alpha", "beta", "x" are both a name and an address): names and
+# addresses live in separate maps, an entry of one never touches an equal key of the other
+NAMES = [None, "alpha", "beta", "gamma", "x", ["n", 1]]
+ADDRS = [None, "/tmp/a", "alpha", "beta", "x", ["127.0.0.1", 5000]]
 UNHASHABLE = 5      # index 5 is an unhashable value (a list, e.g. a (host, port) pair that came back from JSON):
                     # every operation must refuse it (TypeError) without changing anything; such cases are outside
                     # the Coq model (names/addresses are N there) and are decided by the oracle alone
